@@ -1,0 +1,163 @@
+//go:build verif
+
+package agent
+
+// Contracts for the hvc verifier (/verif). Comment-only: this file adds no code
+// with or without the build tag.
+
+// Representation invariant of the two job lists of an agent: they never share
+// a backing array (each is only ever produced by append on itself or by
+// re-slicing itself).
+//@ spec sepQueues(a) = len(a.Tasks) == 0 || len(a.JobQueue) == 0 || !samearray(a.Tasks, a.JobQueue)
+
+//@ func (a *Agent) AddRequest(job Job) (r []Job)
+//@   requires nonnil: a != nil
+//@   modifies a.Tasks, a.Tasks[len(a.Tasks)]
+//@   ensures append: a.Tasks == cat(old(a.Tasks), seq(job))
+//@   ensures ret:    sameslice(r, a.Tasks)
+//@   ensures grow:   samearray(a.Tasks, old(a.Tasks)) || fresh(arrayof(a.Tasks))
+
+//@ func (a *Agent) IsKnownRequestID(teamserver TeamServer, RequestID uint32, CommandID uint32) (ok bool)
+//@   requires nonnil: a != nil && teamserver != nil
+//@   pure
+//@   ensures sound:    ok ==> (CommandID == COMMAND_SOCKET || CommandID == COMMAND_PIVOT || (ufb_sendlogs(teamserver) && CommandID == BEACON_OUTPUT) || exists(i, 0, len(a.Tasks), a.Tasks[i].RequestID == RequestID))
+//@   ensures relay:    (CommandID == COMMAND_SOCKET || CommandID == COMMAND_PIVOT) ==> ok
+//@   ensures logs:     (ufb_sendlogs(teamserver) && CommandID == BEACON_OUTPUT) ==> ok
+//@   ensures known:    forall(i, 0, len(a.Tasks), a.Tasks[i].RequestID == RequestID ==> ok)
+//@   loop "for i := range a.Tasks"
+//@     invariant none: forall(k, 0, idx__, a.Tasks[k].RequestID != RequestID)
+
+//@ func (a *Agent) RequestCompleted(RequestID uint32)
+//@   requires nonnil: a != nil
+//@   modifies a.Tasks, elems(a.Tasks)
+//@   ensures absent:  forall(k, 0, old(len(a.Tasks)), old(a.Tasks)[k].RequestID != RequestID) ==> a.Tasks == old(a.Tasks)
+//@   ensures removed: forall(j, 0, old(len(a.Tasks)), (old(a.Tasks)[j].RequestID == RequestID && forall(k, 0, j, old(a.Tasks)[k].RequestID != RequestID)) ==> a.Tasks == cat(old(a.Tasks)[:j], old(a.Tasks)[j+1:]))
+//@   loop "for i := range a.Tasks"
+//@     invariant none: forall(k, 0, idx__, a.Tasks[k].RequestID != RequestID)
+//@     invariant same: sameslice(a.Tasks, old(a.Tasks)) && a.Tasks == old(a.Tasks)
+
+//@ func (a *Agent) GetQueuedJobs() (r []Job)
+//@   requires nonnil: a != nil
+//@   modifies a.JobQueue
+//@   ensures count:     len(r) + len(a.JobQueue) == old(len(a.JobQueue))
+//@   ensures head:      sameslice(r, old(a.JobQueue)[:len(r)])
+//@   ensures tail:      sameslice(a.JobQueue, old(a.JobQueue)[len(r):])
+//@   ensures nonempty:  old(len(a.JobQueue)) > 0 ==> len(r) >= 1
+//@   loop "for _, job := range a.JobQueue"
+//@     invariant count: NumJobs == idx__ && 0 <= JobsSize
+//@   loop "for i := range job.Data"
+//@     invariant size: 0 <= JobsSize
+
+// The property-level gate predicate of C05 (written from the property statement):
+// a callback is accepted iff it is one of the relay kinds, or beacon output with
+// log forwarding on, or it carries the request id of an outstanding task.
+//@ spec accepted(a, ts, rid, cmd) = cmd == COMMAND_SOCKET || cmd == COMMAND_PIVOT || (ufb_sendlogs(ts) && cmd == BEACON_OUTPUT) || exists(i, 0, len(a.Tasks), a.Tasks[i].RequestID == rid)
+
+//@ func (a *Agent) TaskDispatch(RequestID uint32, CommandID uint32, Parser *parser.Parser, teamserver TeamServer)
+//@   requires wf: wfAgent(a) && Parser != nil && teamserver != nil && logr.LogrInstance != nil
+//@   modifies *
+//@   guard accepted: accepted(a, teamserver, RequestID, CommandID)
+//@   ensures wf: wfAgent(a)
+
+// ---------------------------------------------------------------------------
+// Representation invariant of a registered session: the AES key and IV have the
+// lengths fixed at registration (ParseAtLeastBytes(32)/(16) behind a length
+// check) and the info block exists.
+//@ spec wfAgent(a) = a != nil && a.Info != nil && len(a.Encryption.AESKey) == 32 && len(a.Encryption.AESIv) == 16
+
+//@ func BuildPayloadMessage(Jobs []Job, AesKey []byte, AesIv []byte) (r []byte)
+//@   requires iv: len(AesIv) == 16 || (len(AesKey) != 16 && len(AesKey) != 24 && len(AesKey) != 32)
+
+//@ func ParseHeader(data []byte) (h Header, err error)
+//@   ensures ok: err == nil ==> h.Data != nil
+
+//@ func ParseDemonRegisterRequest(AgentID int, Parser *parser.Parser, ExternalIP string) (r *Agent)
+//@   requires nonnil: Parser != nil
+//@   modifies *
+//@   ensures wf: r != nil ==> wfAgent(r)
+
+//@ func (a *Agent) UpdateLastCallback(Teamserver TeamServer)
+//@   requires wf: a != nil && a.Info != nil && Teamserver != nil
+//@   modifies a.Info.LastCallIn
+
+//@ func (a *Agent) Console(Console func(DemonID string, CommandID int, Output map[string]string), Type string, Text string, Output string)
+//@   requires nonnil: a != nil && Console != nil
+//@   modifies *
+
+//@ func (a *Agent) DownloadAdd(FileID int, FilePath string, FileSize int64) (err error)
+//@   requires nonnil: a != nil && logr.LogrInstance != nil
+//@   modifies *
+//@ func (a *Agent) DownloadWrite(FileID int, data []byte) (err error)
+//@   requires entries: forall(i, 0, len(a.Downloads), a.Downloads[i] != nil)
+//@   requires nonnil: a != nil
+//@   modifies *
+//@ func (a *Agent) DownloadClose(FileID int)
+//@   requires entries: forall(i, 0, len(a.Downloads), a.Downloads[i] != nil)
+//@   requires nonnil: a != nil
+//@   modifies *
+//@ func (a *Agent) DownloadGet(FileID int) (r *Download)
+//@   requires entries: forall(i, 0, len(a.Downloads), a.Downloads[i] != nil)
+//@   requires nonnil: a != nil
+//@   pure
+
+//@ func (a *Agent) PortFwdNew(SocketID int, LclAddr int, LclPort int, FwdAddr int, FwdPort int, Target string)
+//@   requires unlocked: !held(a.PortFwdsMtx)
+//@   requires nonnil: a != nil
+//@   modifies *
+//@ func (a *Agent) PortFwdGet(SocketID int) (r *PortFwd)
+//@   requires entries: forall(i, 0, len(a.PortFwds), a.PortFwds[i] != nil)
+//@   requires unlocked: !held(a.PortFwdsMtx)
+//@   requires nonnil: a != nil
+//@   modifies *
+//@ func (a *Agent) PortFwdIsOpen(SocketID int) (r bool, err error)
+//@   requires entries: forall(i, 0, len(a.PortFwds), a.PortFwds[i] != nil)
+//@   requires unlocked: !held(a.PortFwdsMtx)
+//@   requires nonnil: a != nil
+//@   modifies *
+//@ func (a *Agent) PortFwdOpen(SocketID int) (err error)
+//@   requires entries: forall(i, 0, len(a.PortFwds), a.PortFwds[i] != nil)
+//@   requires unlocked: !held(a.PortFwdsMtx)
+//@   requires nonnil: a != nil
+//@   modifies *
+//@ func (a *Agent) PortFwdWrite(SocketID int, data []byte) (err error)
+//@   requires entries: forall(i, 0, len(a.PortFwds), a.PortFwds[i] != nil)
+//@   requires unlocked: !held(a.PortFwdsMtx)
+//@   requires nonnil: a != nil
+//@   modifies *
+//@ func (a *Agent) PortFwdRead(SocketID int) (r []byte, err error)
+//@   requires entries: forall(i, 0, len(a.PortFwds), a.PortFwds[i] != nil)
+//@   requires unlocked: !held(a.PortFwdsMtx)
+//@   requires nonnil: a != nil
+//@   modifies *
+//@ func (a *Agent) PortFwdClose(SocketID int)
+//@   requires entries: forall(i, 0, len(a.PortFwds), a.PortFwds[i] != nil)
+//@   requires unlocked: !held(a.PortFwdsMtx)
+//@   requires nonnil: a != nil
+//@   modifies *
+//@ func (a *Agent) SocksClientAdd(SocketID int32, conn net.Conn, ATYP byte, IpDomain []byte, Port uint16) (r *SocksClient)
+//@   requires unlocked: !held(a.SocksCliMtx)
+//@   requires nonnil: a != nil
+//@   modifies *
+//@   ensures nonnil: r != nil
+//@ func (a *Agent) SocksClientGet(SocketID int) (r *SocksClient)
+//@   requires entries: forall(i, 0, len(a.SocksCli), a.SocksCli[i] != nil)
+//@   requires unlocked: !held(a.SocksCliMtx)
+//@   requires nonnil: a != nil
+//@   modifies *
+//@ func (a *Agent) SocksClientRead(client *SocksClient) (r []byte, err error)
+//@   requires nonnil: a != nil && client != nil && client.Conn != nil
+//@   modifies *
+//@ func (a *Agent) SocksClientClose(SocketID int32) (r bool)
+//@   requires entries: forall(i, 0, len(a.SocksCli), a.SocksCli[i] != nil)
+//@   requires unlocked: !held(a.SocksCliMtx)
+//@   requires nonnil: a != nil
+//@   modifies *
+//@ func (a *Agent) SocksServerRemove(Addr string)
+//@   requires entries: forall(i, 0, len(a.SocksSvr), a.SocksSvr[i] != nil)
+//@   requires unlocked: !held(a.SocksSvrMtx)
+//@   requires nonnil: a != nil
+//@   modifies *
+
+//@ func getWindowsVersionString(OsVersion []int) (r string)
+//@   requires five: len(OsVersion) >= 5
+//@   pure
